@@ -78,6 +78,13 @@ func init() {
 				return []mon.Family{{Name: "non-ascending-orders", N: 1, Serial: true, Run: c05Orders}}
 			}
 			// the first thing the primary process does: all workers enumerate the SAME small heights at once
+			fams = append(fams, mon.Family{Name: "cold-start", N: 1, Serial: true, Run: func(w *mon.W, _ int) {
+				// the first queries of the process: the extreme (h, index) pairs
+				for _, hb := range []c05Block{{h: 30, start: 1<<31 - 2, n: 1, dup: true}, {h: 0, start: 0, n: 1, dup: true}, {h: 30, start: 0, n: 1, dup: true}, {h: 5, start: 62, n: 1, dup: true}, {h: 4, start: 30, n: 1, dup: true}} {
+					c05Run(w, hb)
+				}
+				w.Bucket("cold-start")
+			}})
 			fams = append(fams, mon.Family{Name: "concurrent-first-use", N: 16 * 13, Run: func(w *mon.W, idx int) {
 				h := 12 - idx/16
 				c05Run(w, c05Block{h: h, start: 0, n: (int64(1) << uint(h+1)) - 1, dup: true})
